@@ -365,6 +365,10 @@ func (server *Server) handleArrayMessage(conn *Conn, arrayMsg *proto.Array) (*Me
 	if err != nil {
 		return nil, err
 	}
+	if firstMsg == nil {
+		// An empty (or null) array carries no command.
+		return nil, ErrEmptyCommand
+	}
 
 	// Nested array ?
 	if firstMsg.IsArray() {
